@@ -39,30 +39,36 @@ Paid(st, who, zfo)    == B!Sub(st.userBal[who][OutIdx(zfo)], prev.userBal[who][O
 \* fee ratio f/(1-f) held as an 18-decimal Dec rounded up, so on the "bounded rounding" side (never on the
 \* "never exceeds the curve" side) it may be off by that relative amount (1.6e15 units on a 1.8e33-unit swap
 \* in the first thorough run with the widened recorder)
-Slack2(nb, amt) == B!Add(B!OfInt(Dust * (nb + 1)), B!Add(B!FloorDiv(B!Mul(amt, B!OfInt(2)), B!Pow(B!OfInt(10), 18)), B!One))
+\* One unit of rounding in the amount that reaches the curve costs 1/(1-f) units of charge (the spread reward on
+\* it is f/(1-f) of it): the per-bucket dust is counted in units of 1 + floor(f/(1-f)) - one for every spread
+\* factor below one half, 20 for 0.95.
+FeeMult == B!Add(B!One, B!FloorDiv(conf.f, B!Sub(B!Pow(B!OfInt(10), 18), conf.f)))
+Slack2(nb, amt) == B!Add(B!Mul(B!OfInt(Dust * (nb + 1)), FeeMult), B!Add(B!FloorDiv(B!Mul(amt, B!OfInt(2)), B!Pow(B!OfInt(10), 18)), B!One))
 
 ExactInOK(C, zfo, ain, aout, amt) ==
     LET W  == IdealIn(C, zfo, RInt(ain))
         k  == Slack2(W.nb, ain)
         a2 == B!Sub(ain, k)
-    IN  /\ B!Le(ain, amt) /\ ain.s > 0 /\ aout.s > 0
+    IN  /\ Chk("exact-in: charges at most the offered amount, positive amounts", B!Le(ain, amt) /\ ain.s > 0 /\ aout.s > 0)
         \* the ideal places the whole charged amount, except for at most k units of per-bucket round-up
         \* that find no liquidity any more (the swap consumed the last bucket exactly)
-        /\ (W.ok \/ RLe(W.left, RInt(k)))
-        /\ RLe(RInt(aout), W.out)                                   \* never pays more than the curve
-        /\ \/ a2.s <= 0
-           \/ LET W2 == IdealIn(C, zfo, RInt(a2))
-              IN  B!Ge(aout, B!Sub(RFloor(W2.out), k))              \* bounded rounding
+        /\ Chk("exact-in: the curve can absorb the amount charged", W.ok \/ RLe(W.left, RInt(k)))
+        /\ Chk("exact-in: never pays more than the curve", RLe(RInt(aout), W.out))
+        /\ Chk("exact-in: bounded rounding of the payout",
+               \/ a2.s <= 0
+               \/ LET W2 == IdealIn(C, zfo, RInt(a2))
+                  IN  B!Ge(aout, B!Sub(RFloor(W2.out), k)))
 
 ExactOutOK(C, zfo, ain, aout, amt) ==
     LET V  == IdealOut(C, zfo, RInt(aout))
         k  == Slack2(V.nb, ain)
         V2 == IdealOut(C, zfo, RInt(B!Add(aout, k)))
-    IN  /\ B!Le(aout, amt) /\ ain.s > 0 /\ aout.s > 0
-        /\ (V.ok \/ RLe(V.left, RInt(k)))
-        /\ RLe(V.in, RInt(ain))                                     \* never charges less than the curve
-        /\ \/ ~V2.ok \/ RPos(V2.left)                               \* perturbed output not deliverable: no bound
-           \/ B!Le(ain, B!Add(RCeil(V2.in), k))                     \* bounded rounding
+    IN  /\ Chk("exact-out: delivers at most the requested amount, positive amounts", B!Le(aout, amt) /\ ain.s > 0 /\ aout.s > 0)
+        /\ Chk("exact-out: the curve can deliver the amount paid", V.ok \/ RLe(V.left, RInt(k)))
+        /\ Chk("exact-out: never charges less than the curve", RLe(V.in, RInt(ain)))
+        /\ Chk("exact-out: bounded rounding of the charge",
+               \/ ~V2.ok \/ RPos(V2.left)                            \* perturbed output not deliverable: no bound
+               \/ B!Le(ain, B!Add(RCeil(V2.in), k)))
 
 \* By price: the pool moved from the logged pre-swap price to the logged post-swap price; for that move the
 \* curve prescribes an input (fee included) and an output: never charged less, never paid more (no dust on
